@@ -149,7 +149,7 @@ READINGS = {
   # <initial tts:position> together with a specified tts:origin: position wins, or origin wins
   "initial-position": ("position", "origin"),
   # tts:disparity is carried as specified, or resolved like a horizontal length
-  "disparity": ("as-specified", "resolved"),
+  "disparity": ("resolved",),      # (C13: every length of a snapshot is root-container relative)
   # a text decoration component that nothing specifies at the root: from a (partial) <initial> value, or simply off
   "td-root-fill": ("initial", "off"),
   # `c` of lengths that run along the line (linePadding, textShadow x offset): font axis (ttconv) or the inline axis
